@@ -127,6 +127,23 @@ func ite(c, a, b string) string {
 	return app("ite", c, a, b)
 }
 
+func add(a, b string) string {
+	if a == "0" {
+		return b
+	}
+	if b == "0" {
+		return a
+	}
+	return app("+", a, b)
+}
+
+func sub(a, b string) string {
+	if b == "0" {
+		return a
+	}
+	return app("-", a, b)
+}
+
 func eq(a, b string) string {
 	if a == b {
 		return "true"
